@@ -61,7 +61,7 @@ Definition w_empty_struct : schema := [mkFile "m" "m" [] no_opts [DMsg "Hollow" 
 Definition w_align : schema :=
   [mkFile "m" "m" [] (mkOpts "" 3%Z "" "") [DMsg "A" false [] [fbool "b" 1]]].
 
-(* [empty-enum]  enum E : uint3 {}  message A { E e = 1 } *)
+(* [empty-enum, FIXED]  enum E : uint3 {}  message A { E e = 1 } *)
 Definition w_empty_enum : schema :=
   [mkFile "m" "m" [] no_opts
      [DEnum "E" 3 []; DMsg "A" false [] [mkField "e" 1 (TRef (mkRef RkEnum [] 0 [] "E"))]]].
@@ -69,7 +69,7 @@ Definition w_empty_enum : schema :=
 Definition w_empty_enum_unused : schema :=
   [mkFile "m" "m" [] no_opts [DEnum "E" 3 []; DMsg "A" false [] [fbool "b" 1]]].
 
-(* [str-escape]  a string constant whose value is  a, double quote, b *)
+(* [str-escape, FIXED]  a string constant whose value is  a, double quote, b *)
 Definition w_str : schema :=
   [mkFile "m" "m" [] no_opts
      [DConst "S" (CvStr (String "a" (String (ascii_of_nat 34) (String "b" EmptyString))));
@@ -106,10 +106,14 @@ Lemma empty_struct_refuted : structs_nonempty_b (render_items w_empty_struct 0 T
 Proof. vm_compute. reflexivity. Qed.
 Lemma align_refuted : align_valid (o_calign (f_opts (getf w_align 0))) = true /\ g_align w_align 0 = false.
 Proof. vm_compute. split; reflexivity. Qed.
-Lemma empty_enum_refuted :
-  render w_empty_enum 0 TgPy [] = None /\ py_enums_nonempty w_empty_enum_unused 0 = false.
-Proof. vm_compute. split; reflexivity. Qed.
-Lemma str_escape_refuted : str_consts_ok w_str 0 = false.
+(* regression cases of the two FIXED findings [empty-enum] and [str-escape]: the model now
+   predicts that the Python renderer does not raise and that every check passes *)
+Lemma empty_enum_fixed :
+  render w_empty_enum 0 TgPy [] <> None /\
+  forallb (fun t => Z.eqb (verdict w_empty_enum 0 t []) 0) [TgH; TgC; TgPy; TgGo] = true /\
+  forallb (fun t => Z.eqb (verdict w_empty_enum_unused 0 t []) 0) [TgH; TgC; TgPy; TgGo] = true.
+Proof. vm_compute. repeat split; try reflexivity. discriminate. Qed.
+Lemma str_escape_fixed : forallb (fun t => Z.eqb (verdict w_str 0 t []) 0) [TgH; TgC; TgPy; TgGo] = true.
 Proof. vm_compute. reflexivity. Qed.
 
 (* non-vacuity on the allowed side: a schema with imports (with and without as-name), a nested
@@ -134,7 +138,7 @@ Definition ok_schema : schema :=
 Definition all_targets : list target := [TgH; TgC; TgHO; TgCO; TgPy; TgGo].
 Definition all_guards (s : schema) (i : nat) : bool :=
   forallb (fun L => pre L s i && g_derived L s i && g_qualify L s i && g_import L s i) [LC; LPy; LGo] &&
-  g_helper s i && g_enum_nonempty s i && g_go_used s i && g_struct_nonempty s i && g_align s i.
+  g_helper s i && g_go_used s i && g_struct_nonempty s i && g_align s i.
 
 Lemma ok_schema_ok :
   wf ok_schema = true /\ all_guards ok_schema 0 = true /\
